@@ -196,7 +196,7 @@ package compile
 //@   loop 0 invariant forall(k, 0, loopidx+1, implies(knows(f, k, feature) && forall(j, k+1, loopidx+1, !knows(f, j, feature)), status == fc_status(f.checkers[k], feature)))
 //@   loop 0 invariant len(looprange) == len(f.checkers) && forall(i, 0, len(looprange), looprange[i] == f.checkers[i])
 //@ func (*featuresMap).set
-//@   requires f.features != nil
+//@   requires f != nil && f.features != nil
 //@   modifies mapof(f.features)
 //@ func (*Compiler).featureEnabled
 //@   requires c != nil
